@@ -11,18 +11,24 @@
 EXTENDS DbDigest, Json
 
 CONSTANTS n1, GenMaxNum, MaxHist,
+          LivePatterns, \* content patterns for which the "live" histories are generated
+          LiveFull,     \* all first computations / restart variants of the "live" histories
           RangeHist     \* three-step range-warmed cache histories (pattern "distinct" only): "none",
                         \* "ends" (last step reads everything / all but the last trio), "full"
 
 VARIABLES kase
-gvars == <<kase, disk, cache, results, steps>>
+gvars == <<kase, disk, cache, inst, tainted, results, steps>>
 
-Plain(imm) == [imm |-> imm, other |-> {}, bad |-> FALSE, decoy |-> "none", entry |-> "db"]
+NoNonReg   == [n \in {} |-> [k |-> "dir", cid |-> -1]]
+Plain(imm) == [imm |-> imm, nonreg |-> NoNonReg, other |-> {}, bad |-> FALSE, decoy |-> "none", entry |-> "db"]
 Restrict(f, S) == [x \in S |-> f[x]]
 Extend(f, x, v) == [y \in DOMAIN f \cup {x} |-> IF y = x THEN v ELSE f[y]]
 
 Patterns == {"distinct", "empty1", "equal2", "allempty"}
 Index(n) == 3 * n.num + ExtRank[n.ext] - 1              \* 1, 2, 3, 4, ...
+(* under the name of file n: a directory, a link to nothing, a link to a file of the same / another content *)
+NonRegKinds(d, n) == {[k |-> "dir", cid |-> -1], [k |-> "dangling", cid |-> -1],
+                      [k |-> "link", cid |-> d.imm[n]], [k |-> "link", cid |-> 40 + Index(n)]}
 PatCid(p, n) ==
     CASE p = "distinct" -> Index(n)
       [] p = "empty1"   -> IF Index(n) = 2 THEN 0 ELSE Index(n)
@@ -32,9 +38,15 @@ Base(last, p) == [n \in Trios(0, last) |-> PatCid(p, n)]
 
 Perturbed(c) == IF c = 0 THEN {400} ELSE {100 + c, 200 + c, 300 + c, 400 + c}
 
-(* history steps: [op, lo, hi, cache]; for op = "tree" hi is the beacon (lo = 0) *)
-T(b, c)      == [op |-> "tree", lo |-> 0, hi |-> b, cache |-> c]
-R(lo, hi, c) == [op |-> "range", lo |-> lo, hi |-> hi, cache |-> c]
+(* history steps [op, lo, hi, cache, num, ext, cid]:                                          *)
+(*   "tree" (hi = the beacon) / "range" (lo..hi): a computation by the node's long-lived      *)
+(*       cache-less (cache = FALSE) or cached digester object                                  *)
+(*   "perturb": the file <num>.<ext> gets the content cid on disk (-1: it is removed)          *)
+(*   "restart": the digester objects are dropped and built again                               *)
+T(b, c)      == [op |-> "tree", lo |-> 0, hi |-> b, cache |-> c, num |-> -1, ext |-> "", cid |-> -1]
+R(lo, hi, c) == [op |-> "range", lo |-> lo, hi |-> hi, cache |-> c, num |-> -1, ext |-> "", cid |-> -1]
+P(n, c)      == [op |-> "perturb", lo |-> 0, hi |-> 0, cache |-> FALSE, num |-> n.num, ext |-> n.ext, cid |-> c]
+Rst          == [op |-> "restart", lo |-> 0, hi |-> 0, cache |-> FALSE, num |-> -1, ext |-> "", cid |-> -1]
 One(b, c)    == <<T(b, c)>>
 
 (* [d, order, hist, kind] *)
@@ -62,6 +74,26 @@ CasesOf(last, p) ==
                    t \in IF RangeHist = "full" THEN Cs
                          ELSE {T(last, TRUE), T(last - 1, TRUE), R(0, last, TRUE)}}
           ELSE {})
+    (* ONE long-lived cache-less digester object computes, a covered file then changes on disk (a *)
+    (* byte, another file's content, removed), and the same object (or, after a restart, a new    *)
+    (* one) computes again; also a file added within / beyond the beacon                          *)
+    \cup (IF p \in LivePatterns
+          THEN LET First == IF LiveFull THEN {T(last, FALSE), R(0, last, FALSE)} ELSE {T(last, FALSE)}
+                   Again(n) == {T(last, FALSE), R(0, last, FALSE), R(n.num, n.num, FALSE)}
+                   Other(n) == imm[CHOOSE m \in DOMAIN imm : m # n \/ last = -1]
+                   Chg(n)   == Perturbed(imm[n]) \cup {-1} \cup (IF Cardinality(DOMAIN imm) > 1 THEN {Other(n)} ELSE {})
+               IN  UNION {{K(d0, "asc", <<c1, P(n, c), c2>>, "live") : c1 \in First, c \in Chg(n), c2 \in Again(n)}
+                          \cup {K(d0, "asc", <<c1, P(n, c), Rst, c2>>, "live") :
+                                  c1 \in First, c \in (IF LiveFull THEN Chg(n) ELSE {-1, 100 + imm[n]}), c2 \in {T(last, FALSE)}}
+                          \cup {K([d0 EXCEPT !.imm = Restrict(imm, DOMAIN imm \ {n})], "asc",
+                                  <<c1, P(n, imm[n]), c2>>, "live") : c1 \in {R(0, last, FALSE)}, c2 \in Again(n)}
+                          (* an explicit cache may be stale after the change; a cache-less digester may not *)
+                          \cup {K(d0, "asc", <<T(last, TRUE), P(n, c), T(last, TRUE), T(last, FALSE)>>, "livecache") :
+                                  c \in {-1, 400 + imm[n]}}
+                          : n \in DOMAIN imm}
+                   \cup {K(d0, "asc", <<T(last, FALSE), P([num |-> last + 1, ext |-> e], 51), T(last + 1, FALSE), T(last, FALSE)>>,
+                           "live") : e \in ImmExt}
+          ELSE {})
     (* other files *)
     \cup {K([d0 EXCEPT !.other = {k}], "asc", One(b, FALSE), "other") : k \in OtherKinds, b \in Bs}
     \cup {K([d0 EXCEPT !.other = OtherKinds], "asc", One(b, c), "other") : b \in Bs, c \in BOOLEAN}
@@ -83,31 +115,52 @@ CasesOf(last, p) ==
                     c \in Perturbed(imm[n]), b \in Bs} : n \in DOMAIN imm}
     \cup {K([d0 EXCEPT !.imm = Restrict(imm, DOMAIN imm \ {n})], "asc", One(b, FALSE), "remove") :
              n \in DOMAIN imm, b \in Bs}
+    (* a directory / symbolic link under the name of an immutable file *)
+    \cup UNION {{K([d0 EXCEPT !.imm = Restrict(imm, DOMAIN imm \ {n}), !.nonreg = (n :> e)], "asc", h, "nonreg") :
+                    e \in (IF p \in LivePatterns THEN NonRegKinds(d0, n) ELSE {}),
+                    h \in {One(last, FALSE), <<T(last, TRUE), T(last, TRUE)>>, <<R(0, last, FALSE)>>}} : n \in DOMAIN imm}
 
 (* the model's prediction along a history *)
-RECURSIVE Predict(_, _, _)
-Predict(d, cm, hist) ==
+(* the model's prediction along a history: disk, cache file, instance memory and tainted  *)
+(* names are threaded through the steps                                                    *)
+SetFile(d, n, c) ==
+    [d EXCEPT !.imm = IF c = -1 THEN [m \in DOMAIN @ \ {n} |-> @[m]]
+                      ELSE [m \in DOMAIN @ \cup {n} |-> IF m = n THEN c ELSE @[m]]]
+RECURSIVE Predict(_, _, _, _, _)
+Predict(d, cm, im, tn, hist) ==
     IF hist = <<>> THEN <<>>
-    ELSE LET st == Head(hist)
-             o  == StepOutcome(d, cm, st)
-             ds == IF ~o.ok THEN <<>>
-                   ELSE IF st.op = "tree" THEN o.root[2]                       \* Root(digests)
-                   ELSE [i \in DOMAIN o.root[2] |-> o.root[2][i][2]]           \* <<name, digest>> pairs
-         IN  <<[ok |-> o.ok, cids |-> [i \in DOMAIN ds |-> ds[i][2]]]>>
-             \o Predict(d, o.newc, Tail(hist))
+    ELSE LET st == Head(hist) IN
+         IF st.op = "perturb"
+         THEN LET n == [num |-> st.num, ext |-> st.ext] IN
+              <<[ok |-> TRUE, cids |-> <<>>, stale |-> FALSE]>>
+              \o Predict(SetFile(d, n, st.cid), cm, im, tn \cup ({n} \cap DOMAIN cm), Tail(hist))
+         ELSE IF st.op = "restart"
+         THEN <<[ok |-> TRUE, cids |-> <<>>, stale |-> FALSE]>> \o Predict(d, cm, <<>>, tn, Tail(hist))
+         ELSE LET o  == StepOutcome(d, cm, im, st)
+                  ds == IF ~o.ok THEN <<>>
+                        ELSE IF st.op = "tree" THEN o.root[2]                       \* Root(digests)
+                        ELSE [i \in DOMAIN o.root[2] |-> o.root[2][i][2]]           \* <<name, digest>> pairs
+              IN  <<[ok |-> o.ok, cids |-> [i \in DOMAIN ds |-> ds[i][2]],
+                     stale |-> st.cache /\ Processed(d, st) \cap tn # {}]>>
+                  \o Predict(d, IF st.cache THEN o.newc ELSE cm,
+                             IF ~st.cache /\ InstanceMemory THEN o.newc ELSE im, tn, Tail(hist))
 
 ImmSeq(d) == LET s == SortNames(DOMAIN d.imm) IN
              [i \in DOMAIN s |-> [num |-> s[i].num, ext |-> s[i].ext, cid |-> d.imm[s[i]]]]
 
 Init ==
     /\ \E last \in 0..GenMaxNum, p \in Patterns : kase \in CasesOf(last, p)
-    /\ disk = (n1 :> kase.d) /\ cache = (n1 :> <<>>) /\ results = {} /\ steps = 0
+    /\ disk = (n1 :> kase.d) /\ cache = (n1 :> <<>>) /\ inst = (n1 :> <<>>) /\ tainted = (n1 :> {})
+    /\ results = {} /\ steps = 0
 Next == UNCHANGED gvars
 Spec == Init /\ [][Next]_gvars
 
 GenPrint ==
     PrintT(<<"CASE", ToJson([kind |-> kase.kind, imm |-> ImmSeq(kase.d), other |-> kase.d.other,
+                             nonreg |-> LET q == SortNames(DOMAIN kase.d.nonreg) IN
+                                        [i \in DOMAIN q |-> [num |-> q[i].num, ext |-> q[i].ext,
+                                                             k |-> kase.d.nonreg[q[i]].k, cid |-> kase.d.nonreg[q[i]].cid]],
                              bad |-> kase.d.bad, decoy |-> kase.d.decoy, entry |-> kase.d.entry,
                              order |-> kase.order, hist |-> kase.hist,
-                             pred |-> Predict(kase.d, <<>>, kase.hist)])>>)
+                             pred |-> Predict(kase.d, <<>>, <<>>, {}, kase.hist)])>>)
 =============================================================================
